@@ -15,7 +15,7 @@ pub const DEF: PropDef = PropDef {
     run,
     replay,
     level: "exploration",
-    rule: "model-based op sequences on a stateful pair and on a stateless pair, both behind a recording cipher: writes (valid, undersized buffer, oversize payload), deliveries (any earlier message of the direction, garbage, undersized payload buffer), set_receiving_nonce(v) and (hook) verif_set_sending_nonce(v) with v in {0,1,2^32-1,2^32,2^64-4..2^64-1,random}, auto rekeys of either direction on either side; stateless reads/writes with the same nonce set. Model: per side a sending and a receiving counter starting at 0, +1 per successful op, unchanged otherwise, never wrapping; at 2^64-1 a well-formed read/write returns Err(State(Exhausted)) and the counter stays; a delivery is accepted iff its nonce equals the receiver's counter and the key epochs match. Log oracle: the cipher is never called with nonce 2^64-1 outside a bracketed rekey, and the nonce it sees equals the model counter for every op. Checked after every step on both sides. Non-trivial = a sequence in which a counter was placed within 3 of 2^64-1 or an op failed and a later one succeeded; distinct by (config, ops)",
+    rule: "model-based op sequences on a stateful pair and on a stateless pair, both behind a recording cipher: writes (valid, undersized buffer, oversize payload), deliveries (any earlier message of the direction, garbage, undersized payload buffer), set_receiving_nonce(v) and (hook) verif_set_sending_nonce(v) with v in {0,1,2^32-1,2^32,2^64-4..2^64-1,random}, auto and manual rekeys of either direction on either side, deliveries of messages longer than 65535 bytes and shorter than a tag; scenarios: counters started 2 below EVERY power of two 2^1..2^63 and 3 writes/reads across it; 300 messages written and read in a row from several bases (the COUNT crosses 256); 70 / 300 / 1000 consecutive failing reads and failing writes before the genuine ones; stateless reads/writes with the same nonce set. Model: per side a sending and a receiving counter starting at 0, +1 per successful op, unchanged otherwise, never wrapping; at 2^64-1 a well-formed read/write returns Err(State(Exhausted)) and the counter stays; a delivery is accepted iff its nonce equals the receiver's counter and the key epochs match. Log oracle: the cipher is never called with nonce 2^64-1 outside a bracketed rekey, and the nonce it sees equals the model counter for every op. Checked after every step on both sides. Non-trivial = a sequence in which a counter was placed within 3 of 2^64-1 or an op failed and a later one succeeded; distinct by (config, ops)",
     technique: "model-based testing with an instrumented (recording) cipher; enumeration of boundary scenarios + proptest sequences with shrinking; uses the verif-hooks sending-nonce setter",
     assumptions: &["the sending counter is placed next to the boundary through the guarded hook TransportState::verif_set_sending_nonce"],
     panic_is_violation: false,
@@ -26,7 +26,7 @@ pub const DEF: PropDef = PropDef {
 pub enum Op {
     /// (initiator sends?, kind 0 ok / 1 undersized buffer / 2 oversize payload)
     Write(bool, u8),
-    /// (receiver is initiator?, which earlier message (from the end), kind 0 genuine / 1 garbage / 2 undersized payload buffer)
+    /// (receiver is initiator?, which earlier message (from the end), kind 0 genuine / 1 garbage / 2 undersized payload buffer / 3 a message longer than 65535 bytes / 4 shorter than a tag)
     Deliver(bool, u8, u8),
     SetRecv(bool, u64),
     SetSend(bool, u64),
@@ -55,7 +55,7 @@ struct Rec {
     bytes: Vec<u8>,
 }
 
-pub const NONCES: [u64; 19] = [0, 1, 0xFFFF_FFFF, 0x1_0000_0000, u64::MAX - 4, u64::MAX - 3, u64::MAX - 2, u64::MAX - 1, u64::MAX, 254, 255, 256, 65534, 65535, 65536, (1 << 24) - 1, (1 << 31) - 1, (1 << 48) - 1, (1 << 63) - 1];
+pub const NONCES: [u64; 21] = [0, 1, 0xFFFF_FFFF, 0x1_0000_0000, u64::MAX - 4, u64::MAX - 3, u64::MAX - 2, u64::MAX - 1, u64::MAX, 254, 255, 256, 65534, 65535, 65536, (1 << 24) - 1, (1 << 31) - 1, (1 << 48) - 1, (1 << 63) - 1, (1 << 40) - 1, (1 << 56) - 1];
 
 fn new_events(log: &Log, from: usize) -> Vec<Ev> {
     log.events()[from..].to_vec()
@@ -155,11 +155,21 @@ fn oracle(c: &Case, acc: &mut Acc) -> CaseResult {
                     let rec = &sent[s][sent[s].len() - 1 - (*which as usize % sent[s].len())];
                     let n = rn[r];
                     near_boundary |= n >= u64::MAX - 3;
-                    let msg = if *kind == 1 { expand(c.seed, 200 + step as u64, rec.bytes.len()) } else { rec.bytes.clone() };
-                    let mut buf = vec![0u8; if *kind == 2 { rec.payload.len() - 1 } else { rec.payload.len() }];
+                    let msg = match *kind {
+                        1 => expand(c.seed, 200 + step as u64, rec.bytes.len()),
+                        3 => vec![0x41u8; 65536 + (step % 3)],
+                        4 => rec.bytes[..(step % 16).min(rec.bytes.len())].to_vec(),
+                        _ => rec.bytes.clone(),
+                    };
+                    let mut buf = vec![0u8; if *kind == 2 { rec.payload.len() - 1 } else if *kind == 3 { 70000 } else { rec.payload.len() }];
                     let res = ts[r].read_message(n, &msg, &mut buf);
                     let evs = new_events(&log, mark);
-                    if *kind == 2 {
+                    if *kind == 3 || *kind == 4 {
+                        // longer than 65535 bytes / shorter than a tag: rejected, nothing moves
+                        ensure!(res.is_err(), "{ctx}: a message of {} bytes was accepted: {res:?}", msg.len());
+                        ensure!(*kind == 4 || evs.is_empty(), "{ctx}: an oversize message reached the cipher: {evs:?}");
+                        seen_fail = true;
+                    } else if *kind == 2 {
                         ensure!(res.is_err() && evs.is_empty(), "{ctx}: undersized payload buffer: {res:?} {evs:?}");
                         seen_fail = true;
                     } else if n == u64::MAX {
@@ -278,11 +288,21 @@ fn oracle(c: &Case, acc: &mut Acc) -> CaseResult {
                     let rec = &sent[s][sent[s].len() - 1 - (*which as usize % sent[s].len())];
                     let n = rn[r];
                     near_boundary |= n >= u64::MAX - 3;
-                    let msg = if *kind == 1 { expand(c.seed, 200 + step as u64, rec.bytes.len()) } else { rec.bytes.clone() };
-                    let mut buf = vec![0u8; if *kind == 2 { rec.payload.len() - 1 } else { rec.payload.len() }];
+                    let msg = match *kind {
+                        1 => expand(c.seed, 200 + step as u64, rec.bytes.len()),
+                        3 => vec![0x41u8; 65536 + (step % 3)],
+                        4 => rec.bytes[..(step % 16).min(rec.bytes.len())].to_vec(),
+                        _ => rec.bytes.clone(),
+                    };
+                    let mut buf = vec![0u8; if *kind == 2 { rec.payload.len() - 1 } else if *kind == 3 { 70000 } else { rec.payload.len() }];
                     let res = ts[r].read_message(&msg, &mut buf);
                     let evs = new_events(&log, mark);
-                    if *kind == 2 {
+                    if *kind == 3 || *kind == 4 {
+                        // longer than 65535 bytes / shorter than a tag: rejected, nothing moves
+                        ensure!(res.is_err(), "{ctx}: a message of {} bytes was accepted: {res:?}", msg.len());
+                        ensure!(*kind == 4 || evs.is_empty(), "{ctx}: an oversize message reached the cipher: {evs:?}");
+                        seen_fail = true;
+                    } else if *kind == 2 {
                         ensure!(res.is_err() && evs.is_empty(), "{ctx}: undersized payload buffer: {res:?} {evs:?}");
                         seen_fail = true;
                     } else if n == u64::MAX {
@@ -381,6 +401,42 @@ fn scenarios() -> Vec<Vec<Op>> {
             out.push(vec![Op::SetSend(side, v), Op::RekeyOut(side), Op::RekeyIn(!side), Op::SetRecv(!side, v), Op::Write(side, 0), Op::Deliver(!side, 0, 0), Op::RekeyIn(side), Op::Write(side, 0), Op::Deliver(!side, 0, 0)]);
         }
     }
+    for side in [true, false] {
+        // every power of two is crossed by consecutive writes and reads
+        for b in 1..64u32 {
+            let v = (1u64 << b) - 2;
+            out.push(vec![Op::SetSend(side, v), Op::SetRecv(!side, v), Op::Write(side, 0), Op::Deliver(!side, 0, 0), Op::Write(side, 0), Op::Deliver(!side, 0, 3), Op::Deliver(!side, 0, 0), Op::Write(side, 0), Op::Deliver(!side, 0, 4), Op::Deliver(!side, 0, 0), Op::Write(side, 1), Op::Write(side, 0), Op::Deliver(!side, 0, 0)]);
+        }
+        // many consecutive failing calls (no success in between), then the genuine ones
+        for n_fail in [70usize, 300, 1000] {
+            let mut ops = vec![Op::Write(side, 0), Op::Write(side, 0)];
+            for k in 0..n_fail {
+                ops.push(Op::Deliver(!side, 1, [1u8, 1, 1, 2, 3, 4][k % 6]));
+            }
+            ops.push(Op::Deliver(!side, 1, 0));
+            for k in 0..n_fail {
+                ops.push(Op::Write(side, 1 + (k % 2) as u8));
+            }
+            ops.push(Op::Write(side, 0));
+            ops.push(Op::Deliver(!side, 1, 0));
+            ops.push(Op::Deliver(!side, 0, 0));
+            out.push(ops);
+        }
+        // long runs: 300 messages written and read in a row (the COUNT of messages crosses 256
+        // whatever the counter value is), with a failing call now and then
+        for base in [0u64, 7, 65536 - 150, (1 << 32) - 150] {
+            let mut ops = vec![Op::SetSend(side, base), Op::SetRecv(!side, base)];
+            for k in 0..300 {
+                ops.push(Op::Write(side, 0));
+                if k % 50 == 49 {
+                    ops.push(Op::Write(side, 1));
+                    ops.push(Op::Deliver(!side, 0, [1u8, 2, 3, 4][(k / 50) % 4]));
+                }
+                ops.push(Op::Deliver(!side, 0, 0));
+            }
+            out.push(ops);
+        }
+    }
     out
 }
 
@@ -412,7 +468,7 @@ pub fn run(ctx: &Ctx) {
             let nonce = prop_oneof![6 => (0usize..NONCES.len()).prop_map(|i| NONCES[i]), 1 => any::<u64>(), 1 => (0u32..64).prop_map(|b| (1u64 << b) - 1), 1 => (0u32..64).prop_map(|b| (1u64 << b).wrapping_sub(2))];
             let op = prop_oneof![
                 6 => (any::<bool>(), prop_oneof![6 => Just(0u8), 1 => Just(1u8), 1 => Just(2u8)]).prop_map(|(a, k)| Op::Write(a, k)),
-                6 => (any::<bool>(), 0u8..3, prop_oneof![6 => Just(0u8), 1 => Just(1u8), 1 => Just(2u8)]).prop_map(|(a, w, k)| Op::Deliver(a, w, k)),
+                6 => (any::<bool>(), 0u8..3, prop_oneof![12 => Just(0u8), 2 => Just(1u8), 2 => Just(2u8), 1 => Just(3u8), 1 => Just(4u8)]).prop_map(|(a, w, k)| Op::Deliver(a, w, k)),
                 2 => (any::<bool>(), nonce.clone()).prop_map(|(a, v)| Op::SetRecv(a, v)),
                 2 => (any::<bool>(), nonce).prop_map(|(a, v)| Op::SetSend(a, v)),
                 1 => any::<bool>().prop_map(Op::RekeyOut),
